@@ -177,10 +177,13 @@ func init() {
 }
 
 func (cmd commandFeat) Execute(conn *Conn, param string) {
+	// the list is built for this reply only: appending to the package-level string made
+	// every FEAT reply longer than the one before, for all connections
+	list := featCmds
 	if conn.tlsConfig != nil {
-		featCmds += " AUTH TLS\n PBSZ\n PROT\n"
+		list += " AUTH TLS\n PBSZ\n PROT\n"
 	}
-	conn.writeMessageMultiline(211, fmt.Sprintf(feats, featCmds))
+	conn.writeMessageMultiline(211, fmt.Sprintf(feats, list))
 }
 
 // cmdCdup responds to the CDUP FTP command.
